@@ -172,6 +172,35 @@ def generate(rng, n, tier):
         i += 1
         script, srcs, kind = m
         yield {"script": script, "cls": cls, "kind": kind, "sources": [[s.var, s.name, s.kind] for s in srcs]}
+    # several un-aliased sub-queries in one FROM / JOIN list, some of them containing un-aliased sub-queries themselves
+    # (their own counter is non-zero): the invented names of one list must be pairwise distinct
+    for j in range(max(40, n // 25)):
+        cls = rng.choice(classes)
+        qn = QNAMES[cls]
+        lines = ["t0 = T('base')"]
+        k = rng.randint(2, 4)
+        subs = []
+        for i in range(1, k + 1):
+            depth = rng.choice([0, 0, 1, 1, 2])
+            lines.append("t%d = T('tab%d')" % (i, i))
+            body = "%s.from_(t%d).select(t%d.c_t%d_0.as_('k%d'))" % (qn, i, i, i, i)
+            for dpt in range(depth):
+                lines.append("n%d_%d = %s" % (i, dpt, body))
+                body = "%s.from_(n%d_%d).select(n%d_%d.k%d.as_('k%d'))" % (qn, i, dpt, i, dpt, i, i)
+            lines.append("s%d = %s.from_(t%d).select(t%d.c_t%d_0.as_('c_s%d_0'))" % (i, qn, i, i, i, i) if depth == 0 else
+                         "s%d = %s" % (i, body.replace(".as_('k%d'))" % i, ".as_('c_s%d_0'))" % i)))
+            subs.append("s%d" % i)
+        order = subs[:]
+        rng.shuffle(order)
+        head = "%s.from_(%s)" % (qn, order[0])
+        for sname in order[1:]:
+            if rng.random() < 0.5:
+                head += ".from_(%s)" % sname
+            else:
+                head += ".join(%s).on(%s.c_%s_0 == %s.c_%s_0)" % (sname, sname, sname, order[0], order[0])
+        head += ".select(%s)" % ", ".join("%s.c_%s_0" % (x, x) for x in subs)
+        lines.append("q = " + head)
+        yield {"script": "\n".join(lines), "cls": cls, "kind": "nested-sub", "sources": [[x, None, "sub"] for x in subs]}
     # sub-query objects reused across statements
     for j in range(max(20, n // 50)):
         cls = rng.choice(classes)
@@ -259,13 +288,27 @@ def examine(case):
     res.nontrivial = nq >= 3 and len(srcs_seen) >= 2
     # invented names are pairwise distinct within the statement
     inv = []
+    # the scope of a name definition = the parenthesis group that encloses it (the statement block it is a source of)
+    stack, scope_at = [-1], []
+    for i, t in enumerate(toks):
+        if t.kind == "p" and t.val == ")":
+            stack.pop() if len(stack) > 1 else None
+        scope_at.append(stack[-1])
+        if t.kind == "p" and t.val == "(":
+            stack.append(i)
     for i, t in enumerate(toks):
         if t.kind == "id" and re.fullmatch(r"sq\d+", t.val):
             prev = toks[i - 1] if i > 0 else None
             if prev is not None and prev.kind == "p" and prev.val == ")":
-                inv.append(t.val)
+                inv.append((scope_at[i], t.val))
             elif prev is not None and prev.kind == "kw" and prev.val == "AS" and i >= 2 and toks[i - 2].kind == "p" and toks[i - 2].val == ")":
-                inv.append(t.val)
+                inv.append((scope_at[i], t.val))
     if len(inv) != len(set(inv)):
-        F("duplicate-invented-name", "invented sub-query names are not distinct: %s" % inv)
+        # two sources of ONE FROM / JOIN list with the same invented name: references to it are ambiguous
+        F("duplicate-invented-name", "invented sub-query names are not distinct: %s" % [x[1] for x in inv])
+    elif len({x[1] for x in inv}) != len(inv):
+        # the same invented name in two different blocks of one statement (each block counts from its own nesting)
+        res.findings.append({"sig": {"kind": "invented-name-reused-across-blocks"},
+                             "what": "an invented sub-query name occurs in two different blocks of one statement: %s | %s"
+                                     % ([x[1] for x in inv], text)})
     return res
